@@ -184,6 +184,12 @@ def project_term(term, ctx: Ctx):
             raise Unsupported(f"power of a product {f!r}")
         objs.append(project_base(base, exponent, ctx))
     num, den, s2, s3 = _norm_pref(acc)
+    # the non-commuting factors (in order) form ONE operator string object
+    ops = [o for o in objs if o["k"] in ("F", "Fd", "NO")]
+    if ops:
+        objs = [o for o in objs if o["k"] not in ("F", "Fd", "NO")]
+        objs.append(_obj_record("OPS", 0, [], [], 1, name="opstring", pt=[
+            {"num": 1, "den": 1, "s2": 0, "s3": 0, "objs": ops, "ord": []}]))
     return {"num": num, "den": den, "s2": s2, "s3": s3, "objs": objs,
             "ord": []}
 
@@ -203,7 +209,7 @@ def project_expr(expr, ctx: Ctx):
 # ---------------------------------------------------------------- helpers ---
 
 def obj_indices(o):
-    if o["k"] in ("P", "NO"):
+    if o["k"] in ("P", "NO", "OPS"):
         s = []
         for t in o["pt"]:
             for oo in t["objs"]:
